@@ -397,6 +397,14 @@ def r6(ctx):
                                      ('(%s.length() <= #0)' % tok, False), ('(%s.size() <= #0)' % tok, False),
                                      ('(%s.length() < #1)' % tok, False), ('(%s.size() < #1)' % tok, False)])
             ctx.ob('C18.R6', fn, x, ok, 'last character of the token', 'read only from a non-empty token: %s' % ok)
+    for x in fn.calls('back'):
+        v = fn.nodes[x]
+        if v['k'] == 'CXXMemberCallExpr' and 'obj' in v and fn.key(v['obj']) == tok:
+            n += 1
+            ok = fn.needs_one_of(x, [('(%s.length() == #0)' % tok, False), ('%s.empty()' % tok, False), ('(%s.size() == #0)' % tok, False),
+                                     ('(%s.length() <= #0)' % tok, False), ('(%s.size() <= #0)' % tok, False),
+                                     ('(%s.length() < #1)' % tok, False), ('(%s.size() < #1)' % tok, False)])
+            ctx.ob('C18.R6', fn, x, ok, 'last character of the token', 'read only from a non-empty token: %s' % ok)
     # an opening quote is removed before the token is tested for a closing quote: otherwise a token that consists of the
     # quote character alone (an argument starting with a blank) counts as opening and closing quote at once
     opens = [nid for nid, d, rhs, op, lhs in fn.assignments() if d and d.split(':')[-1] == esc and rhs is not None and
@@ -404,7 +412,8 @@ def r6(ctx):
     strip = set(c for c in fn.all('CXXMemberCallExpr') if (fn.nodes[c].get('callee') or '').endswith('::erase') and
                 fn.key(fn.nodes[c].get('obj', -1)) == tok and [fn.val(a_) for a_ in fn.nodes[c].get('args', [])][:2] == [0, 1])
     lastcmp = [x for x in fn.all('BinaryOperator') if fn.nodes[x].get('op') == '==' and
-               re.match(r'^\(%s\[\(%s\.(length|size)\(\) - #1\)\] == %s\)$' % (re.escape(tok), re.escape(tok), re.escape(esc)), fn.key(x))]
+               (re.match(r'^\(%s\[\(%s\.(length|size)\(\) - #1\)\] == %s\)$' % (re.escape(tok), re.escape(tok), re.escape(esc)), fn.key(x)) or
+                fn.key(x) == '(%s.back() == %s)' % (tok, esc))]
     for o in opens:
         po = fn.pos(o)
         early = any(fn.reaches_point(po[0], fn.pos(x), strip, start_idx=po[1] + 1) for x in lastcmp)
@@ -698,7 +707,36 @@ def r19(ctx):
                'only behind a constant part: %s' % (c not in bad), witness=ex.describe_path(bad[c]) if c in bad else None)
 
 
+def r20(ctx):
+    ctx.rule('C18.R20', 'a quoted argument ends at the quote character that opened it: RequestImpl::split stores the opening character '
+             'in a variable (assigned from the first character of a token) and gives up the "inside quotes" state (assigns 0 to '
+             'that variable) only under a comparison of a character of the token with the stored character - closed by any '
+             'quote character, an argument in double quotes ends at an apostrophe inside it', minimum=2)
+    fb = ctx.fb
+    fn = fb.fn('ebusd::RequestImpl::split')
+    ctx.touch(fn)
+    opener = None
+    for nid, d, rhs, op, lhs in fn.assignments():
+        if op == '=' and rhs is not None and d and ':' in d:
+            k = fn.key(rhs)
+            if k.endswith('[#0]') or k.endswith('.front()') or k.endswith('.at(#0)'):
+                opener = d
+    if opener is None:
+        raise AnalysisBroken('C18.R20: the variable that keeps the opening quote was not recognised in RequestImpl::split')
+    nm = opener.split(':')[-1]
+    resets = [nid for nid, d, rhs, op, lhs in fn.assignments() if d == opener and op == '=' and rhs is not None and fn.val(rhs) == 0]
+    if len(resets) < 2:
+        raise AnalysisBroken('C18.R20: only %d place(s) where split leaves the quoted state' % len(resets))
+    import re
+    for r in resets:
+        atoms = [(a[0], a[1]) for a in fn.atoms(r)]
+        ok = any(p_ and re.match(r'^\((.+[\[(].*) == %s\)$' % re.escape(nm), k) or p_ and re.match(r'^\(%s == (.+[\[(].*)\)$' % re.escape(nm), k)
+                 for k, p_ in atoms)
+        ctx.ob('C18.R20', fn, r, bool(ok), 'end of a quoted argument', 'only where a character of the token equals the stored opening character %s: %s' % (nm, bool(ok)))
+
+
 def run(ctx):
+    r20(ctx)
     r19(ctx)
     import rules.common as _cmc
     ctx.rule('C18.R18', "a value is compared in the domain of its own type: in the client request sources every comparison (==, !=) of a variable, member, element or call result with an integer constant has the constant inside the value range of the operand's own type, and no variable of type bool is compared with a character or number that is not a constant - RequestImpl::split keeps the quote character that opened an argument in a variable and looks for that character at the end of a token; as a bool it is 1 and never found", minimum=40)
